@@ -70,7 +70,7 @@ func specInOrder(dir string, entry []string, all bool) pipe.Spec {
 			// "g" signals ErrIgnore for one type and renders nothing; "gx" renders nothing at all
 			{Name: "g", ByType: map[string]pipe.Action{modPath + "/a.T": {Ret: "ignore"}}},
 			{Name: "gx"},
-			{Name: "g1", Stateful: true, Default: pipe.Action{Render: "var V_$T_$G = 1\n", Imports: clashing, ImportsInOneTemplateFirst: true, DocOfFields: true, Defers: []pipe.Action{{Render: "var D_$T_$G = 1\n"}}},
+			{Name: "g1", Stateful: true, Default: pipe.Action{Render: "var V_$T_$G = 1\n", Imports: clashing, ImportsInOneTemplateFirst: true, DocOfFields: true, LocateSelf: true, Defers: []pipe.Action{{Render: "var D_$T_$G = 1\n"}}},
 				// package c refers only to the SECOND member of each clashing pair: alone it gets the plain names
 				ByType: map[string]pipe.Action{
 					modPath + "/c.C":  {Render: "var V_$T_$G = 1\n", Imports: []string{"x.io/b/util", "foo/fmt", "k8s.io/apis/core/v1"}},
